@@ -121,6 +121,9 @@ type Entry struct {
 	// Entry have been given deviation values.
 	deviatePresence deviationPresence
 	Uses            []*UsesStmt `json:",omitempty"` // Uses merged into this entry.
+	// deviates lists the entries of Deviate in the order in which the
+	// deviate statements were written.
+	deviates []orderedDeviate
 
 	// Extra maps all the unsupported fields to their values
 	Extra map[string][]interface{} `json:"extra-unstable,omitempty"`
@@ -136,6 +139,12 @@ type Entry struct {
 	// the augmenting entity per RFC6020 Section 7.15.2. The namespace
 	// of the Entry should be accessed using the Namespace function.
 	namespace *Value
+}
+
+// An orderedDeviate is one deviate statement of a deviation.
+type orderedDeviate struct {
+	dt    deviationType
+	entry *Entry
 }
 
 // An RPCEntry contains information related to an RPC Node.
@@ -965,6 +974,7 @@ func ToEntry(n Node) (e *Entry) {
 					}
 
 					e.Deviate[dt] = append(e.Deviate[dt], de)
+					e.deviates = append(e.deviates, orderedDeviate{dt, de})
 				}
 			}
 		case "mandatory":
@@ -1158,8 +1168,10 @@ func (e *Entry) ApplyDeviate(deviateOpts ...DeviateOpt) []error {
 			continue
 		}
 
-		for dt, dv := range d.Deviate {
-			for _, devSpec := range dv {
+		// Several deviate statements take effect in the order written.
+		for _, od := range d.deviates {
+			dt := od.dt
+			for _, devSpec := range []*Entry{od.entry} {
 				switch dt {
 				case DeviationAdd, DeviationReplace:
 					if devSpec.Config != TSUnset {
